@@ -9,19 +9,20 @@ import (
 )
 
 func floors(c *props.Ctx) {
-	c.R.Floor("SYM-BYTES", 7)
+	c.R.Floor("SYM-BYTES", 5)
 	c.R.Floor("LAY-1", 1)
-	c.R.Floor("LAY-2", 10)
-	c.R.Floor("INV-1", 12)
-	c.R.Floor("AXIS-3", 4)
-	c.R.Floor("AXIS-1", 4)
+	c.R.Floor("LAY-2", 8)
+	c.R.Floor("INV-1", 8)
+	c.R.Floor("AXIS-3", 3)
+	c.R.Floor("AXIS-1", 3)
 	c.R.Floor("LAY-6", 1)
 	c.R.Floor("TAB", 1)
-	c.R.Floor("PLANE-1", 6)
-	c.R.Floor("OUT-1", 6)
-	c.R.Floor("SYM-STRIDE", 25)
-	c.R.Floor("SIGN-1", 3)
-	c.R.Floor("DEQ-1", 10)
+	c.R.Floor("PLANE-1", 5)
+	c.R.Floor("OUT-1", 4)
+	c.R.Floor("SYM-STRIDE", 18)
+	c.R.Floor("SIGN-1", 2)
+	c.R.Floor("DEQ-1", 7)
+	c.R.Floor("HALF-1", 1)
 }
 
 const (
@@ -131,6 +132,45 @@ func verifControlSplatGoodRead(src io.Reader) (modeling.Mesh, error) {
 		nil,
 	), err
 }
+
+// accepted idioms on the write side: hoisted element values, helper, different names, count from AttributeLength
+func verifControlQuant(v float64) byte { return byte(v * 255) }
+
+func verifControlSplatGoodWrite(sink io.Writer, cloud modeling.Mesh) error {
+	n := cloud.AttributeLength()
+	if n == 0 {
+		return nil
+	}
+	rotations := cloud.Float4Attribute(modeling.RotationAttribute)
+	opacities := cloud.Float1Attribute(modeling.OpacityAttribute)
+	colours := cloud.Float3Attribute(modeling.FDCAttribute)
+	scales := cloud.Float3Attribute(modeling.ScaleAttribute)
+	positions := cloud.Float3Attribute(modeling.PositionAttribute)
+	w := bitlib.NewWriter(sink, binary.LittleEndian)
+	for k := 0; k < n; k++ {
+		p, s, q := positions.At(k), scales.At(k), rotations.At(k)
+		px, py, pz := float32(p.X()), float32(p.Y()), float32(p.Z())
+		w.Float32(px)
+		w.Float32(py)
+		w.Float32(pz)
+		w.Float32(float32(math.Exp(s.X())))
+		w.Float32(float32(math.Exp(s.Y())))
+		w.Float32(float32(math.Exp(s.Z())))
+		c := colours.At(k).Scale(SH_C0).Add(vector3.Fill(0.5)).Clamp(0, 1)
+		w.Byte(verifControlQuant(c.X()))
+		w.Byte(verifControlQuant(c.Y()))
+		w.Byte(verifControlQuant(c.Z()))
+		w.Byte(verifControlQuant(1. / (1 + math.Exp(-opacities.At(k)))))
+		w.Byte(byte(128 + 128*q.X()))
+		w.Byte(byte(128 + 128*q.Y()))
+		w.Byte(byte(128 + 128*q.Z()))
+		w.Byte(byte(128 + 128*q.W()))
+		if err := w.Error(); err != nil {
+			return err
+		}
+	}
+	return nil
+}
 `
 
 const ctlSpzSrc = `package spz
@@ -140,6 +180,8 @@ import (
 
 	"github.com/EliCDavis/vector/vector3"
 )
+
+func verifControlUnq(b uint8) float64 { return (float64(b) - 128) / 128 }
 
 // must be reported: per-point stride 3*(shDim-1)
 func (pgh Header) verifControlReadShBad(in io.Reader) ([][]vector3.Float64, error) {
@@ -161,7 +203,7 @@ func (pgh Header) verifControlReadShBad(in io.Reader) ([][]vector3.Float64, erro
 	for i := 0; i < int(pgh.NumPoints); i++ {
 		for d := 0; d < shDim; d++ {
 			i3 := d*3 + (i * 3 * int(shDim-1))
-			sh[d][i] = vector3.New(unquantizeSH(shData[i3+0]), unquantizeSH(shData[i3+1]), unquantizeSH(shData[i3+2]))
+			sh[d][i] = vector3.New(verifControlUnq(shData[i3+0]), verifControlUnq(shData[i3+1]), verifControlUnq(shData[i3+2]))
 		}
 	}
 	return sh, nil
@@ -189,7 +231,7 @@ func (h Header) verifControlReadShGood(r io.Reader) ([][]vector3.Float64, error)
 		coeffs := out[k]
 		for p := range coeffs {
 			at := 3 * (p*dims + k)
-			coeffs[p] = vector3.New(unquantizeSH(raw[at]), unquantizeSH(raw[at+1]), unquantizeSH(raw[at+2]))
+			coeffs[p] = vector3.New(verifControlUnq(raw[at]), verifControlUnq(raw[at+1]), verifControlUnq(raw[at+2]))
 		}
 	}
 	return out, nil
@@ -283,7 +325,7 @@ func runControls(a *anchors) {
 	}
 	ctls := []sx.Control{
 		{Rule: "INV-1", Label: "control:splat-bad", Want: ob.Violation, Run: func(r *sx.Rep) bool {
-			w, rd := sfn("verifControlSplatBadWrite"), sfn("Read")
+			w, rd := sfn("verifControlSplatBadWrite"), sfn("verifControlSplatGoodRead")
 			if w == nil || rd == nil {
 				return false
 			}
@@ -298,13 +340,11 @@ func runControls(a *anchors) {
 			return true
 		}},
 		{Rule: "LAY-2", Label: "control:splat-good", Want: ob.Holds, Run: func(r *sx.Rep) bool {
-			w, rd := sfn("Write"), sfn("verifControlSplatGoodRead")
+			w, rd := sfn("verifControlSplatGoodWrite"), sfn("verifControlSplatGoodRead")
 			if w == nil || rd == nil {
 				return false
 			}
-			// the repository writer is judged on its own; only the pairing with the control reader is collected here
-			wsRep := &sx.Rep{C: c, Collect: true}
-			ws := splatWriter(a, wsRep, w)
+			ws := splatWriter(a, r, w)
 			rs := splatReader(a, r, rd)
 			splatPair(a, r, ws, rs)
 			return true
